@@ -584,6 +584,46 @@ fn fmt_program(c: &Case) -> String {
     s
 }
 
+/// Set as soon as any case fails with a signature other than the two that cannot enlarge the search
+/// (lost answers through the v<n> clash, filters ignored - the estimate already ignores filters).
+/// From then on the size estimate of recursive programs is no longer trusted (a defective engine
+/// may search a much larger tree than a correct one) and such cases are not run, only counted.
+static TRIPPED: std::sync::atomic::AtomicBool = std::sync::atomic::AtomicBool::new(false);
+
+/// Can the engine's search recurse through a rule more than once? (predicate dependency cycle, or a
+/// predicate variable in a rule). Without recursion the depth of the search is bounded by the number of
+/// rules whatever the engine does.
+fn recursion_possible(rules: &[RuleSpec]) -> bool {
+    let mut reach: BTreeSet<(u8, u8)> = BTreeSet::new();
+    for r in rules {
+        for c in &r.conclusion {
+            for p in &r.premise {
+                match (c.1, p.1) {
+                    (T::C(a), T::C(b)) => {
+                        reach.insert((a, b));
+                    }
+                    _ => return true,
+                }
+            }
+        }
+    }
+    loop {
+        let mut add = vec![];
+        for (a, b) in &reach {
+            for (c, d) in &reach {
+                if b == c && !reach.contains(&(*a, *d)) {
+                    add.push((*a, *d));
+                }
+            }
+        }
+        if add.is_empty() {
+            break;
+        }
+        reach.extend(add);
+    }
+    reach.iter().any(|(a, b)| a == b)
+}
+
 struct VariantResult {
     names: Vec<String>,
     answers: BTreeSet<Fact>,
@@ -591,9 +631,22 @@ struct VariantResult {
 }
 
 fn check_case(c: &Case) -> Outcome {
+    let o = check_case_inner(c);
+    if o.failures.iter().any(|f| f.sig != "c18.renaming.vN_goal_variable_clash" && f.sig != "c18.soundness.rule_filter_ignored") {
+        TRIPPED.store(true, std::sync::atomic::Ordering::Relaxed);
+    }
+    o
+}
+
+fn check_case_inner(c: &Case) -> Outcome {
     let mut o = Outcome::new();
     if !well_formed(c) {
         o.skipped.push("malformed-case");
+        return o;
+    }
+    let recursive = recursion_possible(&c.rules);
+    if recursive && TRIPPED.load(std::sync::atomic::Ordering::Relaxed) {
+        o.skipped.push("recursive-program-not-run-after-a-violation(size-estimate-untrusted)");
         return o;
     }
     let has_filter = c.rules.iter().any(|r| !r.filters.is_empty());
@@ -822,8 +875,8 @@ fn check_case(c: &Case) -> Outcome {
     o.class_if(max_h >= 8, "answer-height>=8");
     o.class_if(max_h == MAX_DEPTH, "answer-height==MAX_DEPTH");
     o.class_if(matching.len() > demanded.len(), "matching-fact-beyond-depth-bound");
-    let recursive = c.rules.iter().any(|r| r.conclusion.iter().any(|cc| r.premise.iter().any(|p| p.1 == cc.1 || matches!(p.1, T::V(_)))));
-    o.class_if(recursive, "recursive-rule");
+    o.class_if(recursive, "recursive-program");
+    o.class_if(c.rules.iter().any(|r| r.conclusion.iter().any(|cc| r.premise.iter().filter(|p| p.1 == cc.1).count() >= 2)), "doubly-recursive-rule");
     o.class_if(c.rules.iter().any(|r| r.premise.len() == 2), "two-premise-rule");
     o.class_if(c.rules.iter().any(|r| r.conclusion.len() >= 2), "multi-conclusion-rule");
     o.class_if(c.rules.iter().any(|r| r.premise.iter().any(|p| matches!(p.1, T::V(_)))), "rule-predicate-variable");
@@ -878,7 +931,26 @@ fn raw_rule() -> impl Strategy<Value = RawRule> {
         .prop_map(|((kind, preds, inds, pool, npre), (terms, consts, pvar), (fsel, fnum))| RawRule { kind, preds, inds, pool, npre, terms, consts, pvar, fsel, fnum })
 }
 
-fn mk_rule(raw: &RawRule, n_ind: usize, n_pred: usize, with_filter: bool) -> RuleSpec {
+fn mk_rule(raw: &RawRule, n_ind: usize, n_pred: usize, with_filter: bool, acyclic: bool) -> RuleSpec {
+    let mut r = mk_rule_any(raw, n_ind, n_pred, with_filter || acyclic, with_filter);
+    if acyclic {
+        // stratify: premises over p0/p1 (as generated, folded), every conclusion one level above them
+        let fold = |t: T| match t {
+            T::C(p) => T::C(PRED_BASE + (p - PRED_BASE) % 2),
+            v => v,
+        };
+        for p in r.premise.iter_mut() {
+            p.1 = fold(p.1);
+        }
+        let top = r.premise.iter().filter_map(|p| if let T::C(x) = p.1 { Some(x) } else { None }).max().unwrap_or(PRED_BASE);
+        for c in r.conclusion.iter_mut() {
+            c.1 = T::C(top + 1);
+        }
+    }
+    r
+}
+
+fn mk_rule_any(raw: &RawRule, n_ind: usize, n_pred: usize, no_pvar: bool, with_filter: bool) -> RuleSpec {
     let names: Vec<String> = NAME_POOLS[pick_idx(raw.pool, NAME_POOLS.len())].iter().map(|s| s.to_string()).collect();
     let pr = |i: usize| T::C(PRED_BASE + pick_idx(raw.preds[i], n_pred) as u8);
     let ic = |s: u16| T::C(pick_idx(s, n_ind) as u8);
@@ -897,10 +969,10 @@ fn mk_rule(raw: &RawRule, n_ind: usize, n_pred: usize, with_filter: bool) -> Rul
         15 => (vec![(x, a, y)], vec![(x, b, x)]),                           // repeated variable in the head
         16 => (vec![(x, a, x), (x, b, y)], vec![(y, cc, x)]),               // repeated variable in the body
         17 => (vec![(x, a, y)], vec![(x, b, y), (y, cc, x)]),               // two conclusions
-        18 if !with_filter => (vec![(x, T::V(2), y)], vec![(y, T::V(2), x)]), // predicate variable
+        18 if !no_pvar => (vec![(x, T::V(2), y)], vec![(y, T::V(2), x)]), // predicate variable
         _ => {
             // free-form safe rule
-            let allow_pvar = !with_filter;
+            let allow_pvar = !no_pvar;
             let mut premise = vec![];
             let term = |i: usize| -> T {
                 let k = pick_idx(raw.terms[i], 8);
@@ -995,8 +1067,8 @@ fn pick_names(mode: u8, sels: &[u16; 3], rules: &[RuleSpec]) -> Vec<String> {
     out
 }
 
-fn case_strategy(with_filter: bool, max_facts: usize) -> BoxedStrategy<Case> {
-    (2usize..=5, 1usize..=3)
+fn case_strategy(with_filter: bool, max_facts: usize, acyclic: bool) -> BoxedStrategy<Case> {
+    (2usize..=5, if acyclic { 3usize..=3 } else { 1usize..=3 })
         .prop_flat_map(move |(n_ind, n_pred)| {
             let facts = proptest::collection::vec((sel(), sel(), sel()), 1..=max_facts);
             let rules = proptest::collection::vec(raw_rule(), 1..=3);
@@ -1017,7 +1089,7 @@ fn case_strategy(with_filter: bool, max_facts: usize) -> BoxedStrategy<Case> {
                     }
                 })
                 .collect();
-            let rules: Vec<RuleSpec> = rules.iter().enumerate().map(|(i, r)| mk_rule(r, n_ind, n_pred, with_filter && (i == 0 || r.fnum < 3))).collect();
+            let rules: Vec<RuleSpec> = rules.iter().enumerate().map(|(i, r)| mk_rule(r, n_ind, n_pred, with_filter && (i == 0 || r.fnum < 3), acyclic)).collect();
             let goal_names = pick_names(mode, &nsel, &rules);
             // The goal is built from a fact of the (filter-free) least model - a derived one if there is
             // any, in 5 of 7 cases - generalised position by position; one goal in seven is unrelated to
@@ -1068,7 +1140,26 @@ impl Part for Random {
         tier.pick(4000, 80_000)
     }
     fn strategy(&self, _: Tier) -> BoxedStrategy<Case> {
-        case_strategy(false, 8)
+        case_strategy(false, 8, false)
+    }
+    fn check(&self, case: &Case) -> Outcome {
+        check_case(case)
+    }
+}
+
+/// Stratified (recursion-free) programs: the search depth is bounded by the number of rules, so this
+/// part terminates quickly even against a defective engine; it runs first.
+struct Acyclic;
+impl Part for Acyclic {
+    type Case = Case;
+    fn name(&self) -> &'static str {
+        "acyclic"
+    }
+    fn cases(&self, tier: Tier) -> u32 {
+        tier.pick(2000, 30_000)
+    }
+    fn strategy(&self, _: Tier) -> BoxedStrategy<Case> {
+        prop_oneof![2 => case_strategy(false, 8, true), 1 => case_strategy(true, 8, true)].boxed()
     }
     fn check(&self, case: &Case) -> Outcome {
         check_case(case)
@@ -1085,7 +1176,7 @@ impl Part for Filters {
         tier.pick(2000, 40_000)
     }
     fn strategy(&self, _: Tier) -> BoxedStrategy<Case> {
-        case_strategy(true, 8)
+        case_strategy(true, 8, false)
     }
     fn check(&self, case: &Case) -> Outcome {
         check_case(case)
@@ -1103,7 +1194,7 @@ impl Part for Deep {
         0
     }
     fn strategy(&self, _: Tier) -> BoxedStrategy<Case> {
-        case_strategy(false, 8)
+        case_strategy(false, 8, false)
     }
     fn check(&self, case: &Case) -> Outcome {
         check_case(case)
@@ -1116,8 +1207,8 @@ fn deep_cases() -> Vec<Case> {
     let nm = |a: [&str; 3]| -> Vec<String> { a.iter().map(|s| s.to_string()).collect() };
     let rule = |prem: Vec<Pat>, concl: Pat, names: [&str; 3]| RuleSpec { names: nm(names), premise: prem, conclusion: vec![concl], filters: vec![] };
     let mut out = vec![];
-    for template in 0..5u8 {
-        for len in 1..=8u8 {
+    for len in 1..=8u8 {
+        for template in 0..5u8 {
             for rn in [["X", "Y", "Z"], ["v1", "v0", "v2"]] {
                 let rules = match template {
                     // p1 = transitive closure of p0, recursion on the right: heights = path length
@@ -1171,7 +1262,7 @@ fn main() {
          doubly recursive transitivity, left/right linear recursion, joins, constants, repeated variables, two conclusions, predicate variables, free-form) and one goal pattern with 0-3 variables \
          (repeats, constants, predicate variable) whose variable NAMES come from {v0..v6,v10} (3/7), {X,Y,s,x,v0,v1,v2,v10} (2/7) or the rules' own names (2/7). Each goal is asked under 2-3 consistent \
          renamings (X/Y/Z, generated names, generated names rotated); answers = resolve_term of the goal under every returned binding set, compared with an own least-fixpoint model that records \
-         derivation heights. Part `filters`: the same with =/!= and numeric filters on rules (individuals have numeric dictionary strings). Part `deep`: enumerated chain programs whose heights reach \
+         derivation heights. Part `acyclic` (run first): the same shapes with stratified predicates (no recursion), a third of them with filters. Part `filters`: the same as `random` with =/!= and numeric filters on rules (individuals have numeric dictionary strings). Part `deep`: enumerated chain programs whose heights reach \
          MAX_DEPTH-1, MAX_DEPTH and MAX_DEPTH+1 with linear search trees. Programs whose estimated depth-10 SLD tree exceeds 8 000 nodes+answers (about one second of engine time for the three renamings) are dropped and counted (skipped_comparisons). \
          Non-trivial = goal has >=1 variable and >=1 expected answer needs a rule; distinct = distinct (program, goal, names).",
     );
@@ -1179,6 +1270,7 @@ fn main() {
     s.assume("a rule filter is part of the rule body: the least model contains only derivations whose bindings satisfy the filter (this is also what infer_new_facts_semi_naive computes; the filter-soundness verdict is given only when that product path agrees with the oracle's model, otherwise the case is counted ambiguous)");
     s.assume("filters are restricted to the unambiguous fragment: `?a = ?b` / `?a != ?b` between premise variables and numeric comparison of a premise variable ranging over individuals whose dictionary strings are integers");
     s.assume("the SLD-size estimator (own memoised count of the depth-limited search) only decides which cases are run; it contributes no expected value");
+    s.run(&Acyclic);
     s.run_enum(&Deep, deep_cases().into_iter(), true);
     s.run(&Random);
     s.run(&Filters);
